@@ -662,7 +662,57 @@ def r7_the_store_keeps_its_side_of_the_contract(ctx):
         ctx.ob('C11.R7', ob.key, ob.ok, ob.loc, ob.detail, ob.nontrivial)
 
 
+MAP_MUTATORS = {'retain', 'remove', 'remove_entry', 'clear', 'drain', 'extract_if', 'insert', 'entry', 'get_mut', 'values_mut', 'iter_mut', 'shrink_to',
+                'extend', 'try_insert'}
+R8_IDENTITY = {'into_owned', 'into', 'from', 'clone', 'to_owned', 'deref', 'borrow', 'as_ref', 'unwrap_or_default', 'new', 'default', 'branch', 'from_residual',
+               'value', 'get', 'from_str', 'as_str'}
+
+
+def r8_incoming_client_state_is_the_cookies(ctx):
+    ctx.rule('C11.R8', 'P7 provenance + P3: the client-side values a request starts with are the ones the cookie carried. In every body of pavex_session that '
+             'builds an `IncomingSession` (extract, from_parts) or takes one apart (`Session::new`), the `client_state` reaches its destination through '
+             'identity conversions only, and no method that edits a map (retain / remove / clear / drain / insert ..) is called in those bodies: an entry '
+             'dropped on the way in (a `null`, an empty string, an unknown key) is a value that silently fails to carry over.')
+    fb = ctx.fb
+    CR = 'pavex_session'
+    n_agg = 0
+    bodies = []
+    for b in fb.bodies(CR):
+        if b.is_promoted:
+            continue
+        builds = [(bb, j, st) for bb, j, st in b.all_assigns()
+                  if st['rv']['k'] == 'agg' and st['rv'].get('ak') == 'adt' and strip_generics(st['rv']['adt']) == 'pavex_session::incoming::IncomingSession']
+        takes = b.nid.startswith('pavex_session::session_::Session::new') and any('IncomingSession' in t for t in b.locals[1:1 + b.n_args]) if hasattr(b, 'n_args') else \
+            b.nid == 'pavex_session::session_::Session::new'
+        if builds or takes:
+            bodies.append((b, builds))
+    ctx.floor('C11.R8', 'bodies that build or open an IncomingSession', len(bodies), 2)
+    for b, builds in bodies:
+        short = b.nid.replace('pavex_session::', '')
+        muts = [(bb, t) for bb, t in b.calls()
+                if (callee(t) or '').startswith('std::collections::hash::map::HashMap::') and (callee(t) or '').split('::')[-1].split('<')[0] in MAP_MUTATORS]
+        ctx.ob('C11.R8', 'no-map-edit|%s' % short, not muts, b.loc(muts[0][0], muts[0][1]) if muts else b.loc(),
+               'map-editing calls in this body: %s' % ([callee(t).split('::')[-1] for _, t in muts] or 'none'))
+        defs = Defs(b)
+        for bb, j, st in builds:
+            rv = st['rv']
+            for f, o in zip(rv.get('fields', []), rv['ops']):
+                if f != 'client_state':
+                    continue
+                n_agg += 1
+                pl = op_place(o)
+                cs = []
+                if pl is not None:
+                    sl, _ = backward_slice(b, pl['l'], defs)
+                    cs = sorted({(c or '?').split('::')[-1].split('<')[0] for c, _, _ in slice_calls(sl)})
+                bad = [c for c in cs if c not in R8_IDENTITY]
+                ctx.ob('C11.R8', 'client-state-as-received|%s' % short, not bad, b.loc(bb, st),
+                       'client_state is built through %s%s' % (cs or 'a plain move', '' if not bad else ' — NOT identity conversions: %s' % bad))
+    ctx.floor('C11.R8', 'IncomingSession aggregates', n_agg, 1)
+
+
 def check(ctx):
+    r8_incoming_client_state_is_the_cookies(ctx)
     r7_the_store_keeps_its_side_of_the_contract(ctx)
     from .c11_model import r5_typestate
     r5_typestate(ctx)
